@@ -222,6 +222,22 @@ void Sim::exec_step(const Step& s, ns_t* next_override) {
         cur_init_op = -1;
         break;
     }
+    case SK::PublishBurst: {
+        // a = count, b = qos, c = 1: oversize payload (rejected when the broker announced a Maximum Packet Size)
+        if (!client) break;
+        if (!running) { w.count("skipped.not_running"); break; }
+        for (int i = 0; i < s.a; ++i) {
+            Step one; one.kind = SK::Publish; one.id = s.id * 100000 + i;
+            int op = new_op(OpKind::publish, one);
+            auto& o = ops[op];
+            o.qos = s.b; o.topic = "t/" + std::to_string(one.id); o.payload = s.c ? std::string((size_t)s.d, 'x') : std::to_string(one.id) + ":";
+            cur_init_op = op;
+            client->async_publish(o.qos, o.topic, o.payload, false, {}, -1, cb(op));
+            ops[op].init_done_seq = w.seq;
+            cur_init_op = -1;
+        }
+        break;
+    }
     case SK::Subscribe: {
         if (!client) break;
         if (!running) { w.count("skipped.not_running"); break; }   // using a client that is not running is API misuse
